@@ -7,7 +7,7 @@ From TV Require Import spec.Num spec.PyBase spec.PyLib model.GraphsIter.
 From TV Require Import gen.IRAst gen.Names gen.ExhaustAst gen.Exhaust gen.IterGraphs gen.GlueGen.
 From TV Require Import gen.AppendGen gen.GenerateIR.
 From TV Require model.Graphs proofs.GraphsInd proofs.GraphsSimplify proofs.GraphsAssign proofs.GraphsMerge proofs.GenGraphs_base proofs.GenGraphs_equiv.
-From TV Require proofs.Certs2Base proofs.GenGenIR_sound.
+From TV Require proofs.Certs2Base proofs.GenGenIR_sound spec.IRSem.
 From TV Require proofs.Certs proofs.GenAppend_decl proofs.GenAppend_equiv proofs.Certs3Defs proofs.Certs2Input.
 Import ListNotations.
 Open Scope bool_scope.
@@ -1514,6 +1514,7 @@ Section SAFE.
   Hypothesis Hpre_p : forall r, CB.mem (String "p" (String "_"%char r)) T = false.
   Hypothesis Hpre_i : forall r, CB.mem (String "i" (String "_"%char r)) T = false.
   Hypothesis Hpre_b : forall r, CB.mem (String "b"%char (String "u"%char (String "c"%char (String "k"%char (String "e"%char (String "t"%char (String "_"%char r))))))) T = false.
+  Hypothesis Hpre_w : forall r, CB.mem (String "w"%char (String "r"%char (String "i"%char (String "t"%char (String "t"%char (String "e"%char (String "n"%char (String "_"%char r)))))))) T = false.
   Hypothesis Hidx : forall i, In i (Tensor_indexes outT) -> CB.mem i T = false.
 
   Definition okI : stmt -> bool := CI.safe_stmt T.
@@ -1522,7 +1523,7 @@ Section SAFE.
   Class GoodI (X : Type) := goodi : X -> Prop.
   #[local] Instance goodi_sb : GoodI sb := fun b => forallb okI (sb_lines b) = true.
   #[local] Instance goodi_stmt : GoodI stmt := fun s => okI s = true.
-  #[local] Instance goodi_expr : GoodI expr := fun e => cleanE e = true.
+  #[local] Instance goodi_expr : GoodI expr := fun e => cleanE e = true /\ CI.rhs_ok T e = true.
   #[local] Instance goodi_out : GoodI Output := fun o => Output_output o = outT.
   #[local] Instance goodi_graph : GoodI ig_graph := fun g => graph_outputs_of_t ov g = true.
   #[local] Instance goodi_list {X} `{GoodI X} : GoodI (list X) := fun l => Forall goodi l.
@@ -1559,13 +1560,22 @@ Section SAFE.
   (* a statement given explicitly: compute, then use the name facts *)
   Ltac gi_stmt :=
     unfold goodi, goodi_stmt, goodi_expr, okI, cleanE in *;
+    repeat match goal with H : _ /\ _ |- _ => destruct H end;
+    try (split; [|try reflexivity]);
     first [ reflexivity
           | assumption
           | cbn; repeat match goal with H : _ = outT |- _ => rewrite !H end;
             repeat match goal with H : CB.mem _ T = false |- _ => rewrite !H end;
-            rewrite ?Hpre_out, ?Hpre_p, ?Hpre_i, ?Hpre_b, ?Hout, ?mem_same; cbn;
+            rewrite ?Hpre_out, ?Hpre_p, ?Hpre_i, ?Hpre_b, ?Hpre_w, ?Hout, ?mem_same; cbn;
             repeat match goal with H : negb (CI.may_input T ?e) = true |- context [CI.may_input T ?e] => rewrite (proj1 (negb_true_iff _) H) end;
-            cbn; rewrite ?Hpre_out, ?Hpre_p, ?Hpre_i, ?Hpre_b, ?Hout, ?mem_same; reflexivity
+            cbn; rewrite ?Hpre_out, ?Hpre_p, ?Hpre_i, ?Hpre_b, ?Hpre_w, ?Hout, ?mem_same; reflexivity
+          | match goal with |- context [Variable_declare ?v _] => is_var v; destruct v; reflexivity end
+          | match goal with
+            | H : negb (CI.may_input T ?e) = true, R : CI.rhs_ok T ?e = true |- _ =>
+                is_var e; destruct e; cbn in H, R |- *;
+                rewrite ?Hpre_out, ?Hpre_p, ?Hpre_i, ?Hpre_b, ?Hpre_w, ?Hout, ?mem_same;
+                try rewrite (proj1 (negb_true_iff _) H); try rewrite R; try rewrite H; reflexivity
+            end
           | idtac ].
 
   Lemma gi_sparse_init leaf : goodi (write_sparse_initialization leaf).
@@ -1701,6 +1711,321 @@ Section SAFE.
     cbn -[CI.rhs_ok CI.may_input to_ir]. rewrite R, Hc. cbn. rewrite Ho, Hpre_out. reflexivity.
   Qed.
 
+
+  (** goal 1: exhausting a tensor keeps the output layers; generate_subgraphs only returns exhausted graphs *)
+  Lemma exhaust_ok : forall g r, graph_outputs_of_t ov g = true -> graph_outputs_of_t ov (ig_exhaust_tensor g r) = true.
+  Proof.
+    fix IH 1. intros g r H. destruct g as [e | iv o n | nm ts]; cbn [ig_exhaust_tensor graph_outputs_of_t] in *.
+    - reflexivity.
+    - destruct o as [[t l]|]; [apply andb_true_iff in H as [A B]; rewrite A; cbn; apply IH; exact B | apply IH; exact H].
+    - assert (F : forallb (graph_outputs_of_t ov) (map (fun t => ig_exhaust_tensor t r) ts) = true).
+      { induction ts as [|t ts IHts]; [reflexivity|]. cbn [forallb map] in *. apply andb_true_iff in H as [A B].
+        rewrite (IH t r A), (IHts B). reflexivity. }
+      destruct (map _ ts) as [|a [|b rest]]; [reflexivity | cbn in F; rewrite andb_true_r in F; exact F | exact F].
+  Qed.
+
+  Definition dgood (d : list (list string * ig_graph)) : Prop := Forall (fun kv => graph_outputs_of_t ov (snd kv) = true) d.
+  Lemma dgood_set d k v : dgood d -> graph_outputs_of_t ov v = true -> dgood (dict_set sfs_eqb k v d).
+  Proof.
+    intros Hd Hv. induction Hd as [|[k' v'] d Hv' Hd IH]; cbn.
+    - constructor; [exact Hv | constructor].
+    - destruct (sfs_eqb k k'); constructor; auto.
+  Qed.
+  Lemma dgood_update d e : dgood d -> dgood e -> dgood (dict_update sfs_eqb d e).
+  Proof.
+    unfold dict_update. intros Hd He. revert d Hd. induction He as [|[k v] e Hv He IH]; intros d Hd; cbn; auto.
+    apply IH. apply dgood_set; auto.
+  Qed.
+  Lemma wp_py_while {S} (body : S -> option (S * bool)) (I : S -> Prop) fuel :
+    (forall s, I s -> wp (body s) (fun r => I (fst r))) -> forall init, I init -> wp (py_while fuel body init) I.
+  Proof.
+    intros Hb. induction fuel as [|f IH]; intros init Hi r E; cbn in E; [discriminate|].
+    destruct (body init) as [[s' b]|] eqn:Eb; [|discriminate]. pose proof (Hb init Hi _ Eb) as Hs. cbn in Hs.
+    destruct b; [injection E as <-; exact Hs | exact (IH s' Hs r E)].
+  Qed.
+
+  Lemma wi_generate_subgraphs fuel g : goodi g -> wp (generate_subgraphs fuel g) goodi.
+  Proof.
+    intros Hg. unfold generate_subgraphs. cbv zeta.
+    apply wp_bind_any. intros dims.
+    apply wp_bind with (P := fun st : (list (list string * ig_graph)) * (list (list string * ig_graph)) => dgood (fst st) /\ dgood (snd st)).
+    - apply wp_py_while.
+      + intros [old all] [Hold Hall]. cbn [fst snd] in *.
+        apply wp_bind with (P := fun r : (list (list string * ig_graph)) * (list (list string * ig_graph)) * bool => dgood (fst (fst r)) /\ dgood (snd (fst r))).
+        * apply wp_bind with (P := dgood).
+          { apply (wp_ofold_all (fun kv : list string * ig_graph => graph_outputs_of_t ov (snd kv) = true)); [exact Hold| |constructor].
+            intros ng [sl og] Hog Hng. cbn [snd] in Hog. cbv beta iota.
+            apply wp_bind with (P := dgood); [|intros v Hv; apply wp_some; exact Hv].
+            apply wp_ofold; [|exact Hng]. intros acc x Ha. apply wp_bind_any. intros t2. apply wp_some.
+            apply dgood_set; auto. apply exhaust_ok. exact Hog. }
+          intros ng Hng. cbv beta. destruct (Z.eqb _ _); apply wp_some; cbn [fst snd]; split; auto. apply dgood_update; auto.
+        * intros [[a b] c] [Ha Hb]. apply wp_some. cbn [fst snd] in *. split; auto.
+      + cbn [fst snd]. split; (constructor; [exact Hg | constructor]).
+    - intros [old all] [Hold Hall]. cbn [fst snd] in *. cbv beta iota.
+      apply wp_bind with (P := fun keyed : list (Z * ig_graph) => Forall (fun p => graph_outputs_of_t ov (snd p) = true) keyed).
+      + intros keyed Hk.
+        assert (Hs : Forall (fun g0 : ig_graph => graph_outputs_of_t ov g0 = true) (map snd all)).
+        { apply Forall_forall. intros g0 Hin. apply in_map_iff in Hin as [[k v] [<- Hkv]]. unfold dgood in Hall. rewrite Forall_forall in Hall. exact (Hall _ Hkv). }
+        revert keyed Hk Hs. generalize (map snd all). induction l as [|x l IHl]; intros keyed Hk Hs; cbn in Hk.
+        * injection Hk as <-. constructor.
+        * destruct (ig_compressed_dimensions x); cbn [obind] in Hk; [|discriminate].
+          destruct (omap _ l) as [ys|] eqn:Ey; [|discriminate]. injection Hk as <-. inversion Hs; subst.
+          constructor; [assumption | apply IHl; auto].
+      + intros keyed Hk. apply wp_some. unfold goodi, goodi_list.
+        apply Forall_forall. intros g0 Hin. apply in_map_iff in Hin as [[k v] [<- Hkv]].
+        pose proof (Permutation_in _ (gen_sorted_desc_perm keyed) Hkv) as Hin'.
+        rewrite Forall_forall in Hk. exact (Hk _ Hin').
+  Qed.
+
+  (** goal 2: the dispatch family *)
+  Lemma list_eqb_eq {A} (e : A -> A -> bool) : (forall x y, e x y = true -> x = y) -> forall l l', list_eqb e l l' = true -> l = l'.
+  Proof.
+    intros He. induction l as [|x l IH]; destruct l' as [|y l']; cbn; intros H; try discriminate; auto.
+    apply andb_true_iff in H as [HA HB]. f_equal; auto.
+  Qed.
+  Lemma tensor_eqb_conv t : id_expr_eqb t ov = true -> conv_tensor t = Some outT.
+  Proof.
+    intros H. rewrite <- Hov. destruct t; destruct ov; cbn in H; try discriminate.
+    apply andb_true_iff in H as [H H4]. apply andb_true_iff in H as [H H3]. apply andb_true_iff in H as [H1 H2].
+    apply String.eqb_eq in H1. apply String.eqb_eq in H2.
+    apply (list_eqb_eq String.eqb) in H3; [|intros x y E; apply String.eqb_eq; exact E].
+    apply (list_eqb_eq ExhaustAst.Mode_eqb) in H4; [|intros [] []; cbn; congruence].
+    subst. reflexivity.
+  Qed.
+
+  Lemma wp_bind_some {A B} (v : A) (f : A -> option B) Q : wp (f v) Q -> wp (obind (Some v) f) Q.
+  Proof. intros H. exact H. Qed.
+  Lemma wp_bind_none {A B} (f : A -> option B) Q : wp (obind None f) Q.
+  Proof. apply wp_none. Qed.
+
+  Lemma rhs_and_join l : CI.rhs_ok T (And_join l) = true.
+  Proof.
+    unfold And_join. generalize (map (fun operand => to_expression operand) l) as xs. intros xs.
+    assert (G : forall xs a, CI.rhs_ok T a = true -> CI.rhs_ok T (fold_left And xs a) = true).
+    { induction xs0 as [|x xs0 IH]; cbn; auto. }
+    apply G. reflexivity.
+  Qed.
+  Lemma cleanE_and_join l : cleanE (And_join l) = true.
+  Proof.
+    unfold And_join. generalize (map (fun operand => to_expression operand) l) as xs. intros xs.
+    assert (G : forall xs a, cleanE a = true -> cleanE (fold_left And xs a) = true).
+    { induction xs0 as [|x xs0 IH]; cbn; auto. }
+    apply G. reflexivity.
+  Qed.
+  Lemma wi_min_join (l : list expr) : goodi l -> wp (Min_join (map (fun x_ => XE x_) l)) goodi.
+  Proof.
+    intros Hl r E. unfold Min_join in E. rewrite map_map in E. cbn [to_expression] in E. rewrite map_id in E.
+    destruct l as [|x l]; cbn in E; [discriminate|]. injection E as <-. inversion Hl as [|? ? [Hc Hr] _]; subst.
+    assert (G : forall xs a, cleanE a = true /\ CI.rhs_ok T a = true -> cleanE (fold_left Min xs a) = true /\ CI.rhs_ok T (fold_left Min xs a) = true).
+    { induction xs as [|y xs IH]; intros a Ha; cbn [fold_left]; [exact Ha|]. apply IH. split; reflexivity. }
+    apply G. split; assumption.
+  Qed.
+  Lemma okI_branch_join (l : list (expr * stmt)) :
+    goodi l -> okI (Branch_join (map (fun '(c0_, c1_) => (XE c0_, c1_)) l)) = true.
+  Proof.
+    intros Hl. unfold Branch_join. rewrite <- map_rev.
+    assert (Hr : Forall goodi (rev l)) by (apply Forall_rev; exact Hl).
+    revert Hr. generalize (rev l) as xs. intros xs Hxs.
+    assert (G : forall acc, okI acc = true ->
+                okI (fold_left (fun previous (leaf : exarg * stmt) =>
+                                  Branch (to_expression (let '(p_, _) := leaf in p_)) (let '(_, p_) := leaf in p_) previous)
+                               (map (fun '(c0_, c1_) => (XE c0_, c1_)) xs) acc) = true).
+    { induction Hxs as [|[c b] xs [_ Hb] Hxs IH]; intros acc Ha; cbn [map fold_left]; auto.
+      apply IH. cbn [fst snd] in Hb. unfold goodi, goodi_stmt in Hb. unfold okI in *. cbn [CI.safe_stmt]. rewrite Hb, Ha. reflexivity. }
+    apply G. reflexivity.
+  Qed.
+  Lemma wi_ig_next g : goodi g -> wp (ig_next g) goodi.
+  Proof. intros H r E. destruct g; try discriminate. injection E as <-. unfold goodi, goodi_graph in *. cbn in H.
+    destruct output as [[t l]|]; [apply andb_true_iff in H; tauto | exact H]. Qed.
+  Lemma sum_terms_good nm ts : goodi (IgSumNode nm ts) -> goodi ts.
+  Proof. unfold goodi at 1, goodi_graph. cbn. intros H. apply Forall_forall. intros t Ht. rewrite forallb_forall in H. exact (H t Ht). Qed.
+
+  Lemma fold_mul_clean xs : forall a, CI.may_input T a = false -> CI.may_input T (fold_left Multiply xs a) = false.
+  Proof. induction xs as [|x xs IH]; cbn; auto. Qed.
+  Lemma fold_mul_rhs xs : forall a, CI.rhs_ok T a = true -> CI.rhs_ok T (fold_left Multiply xs a) = true.
+  Proof. induction xs as [|x xs IH]; cbn; auto. Qed.
+
+  Ltac gi_stmt2 :=
+    first [ apply cleanE_and_join | (split; [apply cleanE_and_join | apply rhs_and_join]) | apply okI_branch_join; assumption
+          | solve [gi_stmt]
+          | solve [match goal with |- context [default_array_size ?c] => destruct c end; gi_stmt]
+          | solve [unfold goodi, goodi_expr, cleanE; try split; unfold Expression_plus, Multiply_join;
+                   cbn [to_expression CI.may_input CI.rhs_ok negb];
+                   rewrite ?fold_mul_clean, ?fold_mul_rhs by reflexivity; reflexivity]
+          | gi_stmt ].
+
+  Ltac gi_solve2 :=
+    cbn [fst snd] in *;
+    lazymatch goal with
+    | |- goodi (sb_append_stmt _ _) => apply gi_append_stmt; [gi_solve2 | gi_stmt2]
+    | |- goodi (sb_append_sb _ _) => apply gi_append_sb; gi_solve2
+    | |- goodi (sb_close_branch _ _ _) => apply gi_close_branch; gi_solve2
+    | |- goodi (sb_close_loop _ _ _) => apply gi_close_loop; gi_solve2
+    | |- goodi (sb_close_block _ _ _) => apply gi_close_block; gi_solve2
+    | |- goodi (MkSB [] _) => reflexivity
+    | |- goodi (write_sparse_initialization _) => apply gi_sparse_init
+    | |- goodi (write_pos_assembly _) => apply wi_pos_assembly; assumption
+    | |- goodi (_, _) => split; gi_solve2
+    | |- goodi_prod (_, _) => split; gi_solve2
+    | |- goodi (Some _) => unfold goodi, goodi_option; gi_solve2
+    | |- goodi (@None _) => exact I
+    | |- @goodi (list _) _ (_ ++ [_])%list => apply Forall_app; split; [assumption | constructor; [gi_solve2 | constructor]]
+    | |- @goodi (list _) _ [] => constructor
+    | |- @goodi (list _) _ _ => first [assumption | solve [apply Forall_forall; intros ? _; gi_solve2] | idtac]
+    | |- @goodi stmt _ (sb_finalize _) => apply gi_finalize; gi_solve2
+    | |- @goodi stmt _ _ => gi_stmt2
+    | |- @goodi expr _ _ => gi_stmt2
+    | |- goodi_expr _ => gi_stmt2
+    | |- goodi_stmt _ => first [apply gi_finalize; gi_solve2 | gi_stmt2]
+    | |- _ => first [ assumption | exact I | solve [repeat split; exact I]
+                    | solve [unfold goodi, goodi_option, goodi_prod, goodi_default;
+                             repeat match goal with |- context [match ?x with _ => _ end] => destruct x end;
+                             repeat split; exact I]
+                    | idtac ]
+    end.
+
+  Ltac wj_go db :=
+    cbv beta iota;
+    lazymatch goal with
+    | |- wp (Some _) _ => apply wp_some; wj_post db
+    | |- wp None _ => apply wp_none
+    | |- wp (obind (Some _) _) _ => apply wp_bind_some; wj_go db
+    | |- wp (obind None _) _ => apply wp_bind_none
+    | |- wp (match ?x with Some _ => _ | None => _ end) _ => first [apply wp_if | destruct x; destruct_gi]; wj_go db
+    | |- wp (if ?c then _ else _) _ => first [apply wp_if | destruct c; destruct_gi]; wj_go db
+    | |- wp (let '(_, _) := ?p in _) _ => destruct p; destruct_gi; wj_go db
+    | |- wp (ofold _ _ _) _ =>
+        apply wp_ofold_goodi; [ gi_solve2
+                              | let acc := fresh "acc" in let x := fresh "x" in let Hx := fresh "Hx" in let Ha := fresh "Ha" in
+                                intros acc x Hx Ha; wj_go db
+                              | gi_solve2 ]
+    | |- wp (obind ?x ?f) _ =>
+        first [ apply wp_bind_goodi;
+                [ solve [first [ solve [db] | wj_go db ]]
+                | let v := fresh "v" in let Hv := fresh "Hv" in intros v Hv; wj_go db ]
+              | apply wp_bind_any; let v := fresh "v" in intros v; wj_go db ]
+    | |- wp _ goodi => first [ solve [db] | solve [apply wp_of_goodi; assumption] | solve [intros ? ?; gi_solve2] | idtac ]
+    | |- _ => idtac
+    end
+  with wj_post db :=
+    lazymatch goal with
+    | |- wp _ _ => wj_go db
+    | |- goodi _ => destruct_gi; gi_solve2
+    | |- _ => idtac
+    end.
+
+  Ltac dbf := eauto 4 using wi_next_output, wi_write_assignment, wi_crd_assembly, wi_pos_allocation, wi_min_join, wi_ig_next, wi_generate_subgraphs.
+
+  Lemma sum_safe rec_ self o k :
+    (forall g o', goodi g -> goodi o' -> wp (rec_ g o' k) goodi) -> goodi self -> goodi o ->
+    wp (to_ir_sum rec_ self o k) goodi.
+  Proof.
+    intros IH Hs Ho. unfold to_ir_sum. destruct self; try solve [apply wp_none].
+    pose proof (sum_terms_good _ _ Hs) as Ht. cbv zeta. wj_go dbf.
+  Qed.
+
+  Lemma flags_are_vars o : Forall (fun e => exists x, e = Var x) (Output_written_flags o).
+  Proof. unfold Output_written_flags. apply Forall_forall. intros e He. apply in_map_iff in He as ((l & m) & <- & _). eexists. reflexivity. Qed.
+
+  Lemma terminal_safe self o k : goodi o -> wp (to_ir_terminal_expression self o k) goodi.
+  Proof.
+    intros Ho. unfold to_ir_terminal_expression. destruct self; try solve [apply wp_none]. cbv zeta.
+    apply wp_bind_goodi.
+    - apply wp_if; [|apply wp_some; reflexivity].
+      apply wp_bind_goodi; [|intros v Hv; apply wp_some; exact Hv].
+      pose proof (flags_are_vars o) as P. revert P. generalize (Output_written_flags o) as fl.
+      intros fl P. assert (H0 : goodi (MkSB [] (Some "*** Computation of expression ***"%string))) by reflexivity.
+      revert H0. generalize (MkSB [] (Some "*** Computation of expression ***"%string)) as s0.
+      induction P as [|e fl [x ->] P IH]; intros s0 H0 r E; cbn in E.
+      + injection E as <-. exact H0.
+      + eapply IH; [|exact E]. apply gi_append_stmt; [exact H0|]. reflexivity.
+    - intros v Hv. wj_go dbf.
+  Qed.
+
+  Lemma iteration_safe fuel rec_ self o k :
+    (forall g o', goodi g -> goodi o' -> wp (rec_ g o' k) goodi) -> goodi self -> goodi o ->
+    wp (to_ir_iteration_variable fuel rec_ self o k) goodi.
+  Proof.
+    intros IH Hs Ho. unfold to_ir_iteration_variable. destruct self as [|iv out nxt|]; try solve [apply wp_none].
+    cbv zeta.
+    apply wp_bind with (P := fun so : option TensorLayer => forall tl, so = Some tl -> TensorLayer_tensor tl = outT).
+    { intros so E tl ->. unfold goodi, goodi_graph in Hs. cbn in Hs. destruct out as [[t l]|]; cbn in E; [|discriminate].
+      apply andb_true_iff in Hs as [Ht _]. rewrite (tensor_eqb_conv _ Ht) in E. cbn in E. injection E as <-. reflexivity. }
+    intros so Hso. destruct so as [tl|]; [pose proof (Hso tl eq_refl) as Htl|]; clear Hso.
+    - wj_go dbf.
+    - wj_go dbf.
+  Qed.
+
+  Theorem family_safe fuel k n : forall g o, goodi g -> goodi o -> wp (to_ir_iteration_graph fuel n g o k) goodi.
+  Proof.
+    induction n as [|n IH]; intros g o Hg Ho; cbn [to_ir_iteration_graph]; [apply wp_none|].
+    destruct g; [apply terminal_safe; auto | apply iteration_safe; auto | apply sum_safe; auto].
+  Qed.
+
+  (** goal 3: the output declarations and the cleanup *)
+  Lemma wi_declarations cap a k : AppendOutput_output a = outT -> wp (AppendOutput_write_declarations cap a k) goodi.
+  Proof.
+    intros E. unfold AppendOutput_write_declarations. cbv zeta.
+    wj_go dbf.
+  Qed.
+
+  Lemma wi_cleanup a k : AppendOutput_output a = outT -> wp (AppendOutput_write_cleanup a k) goodi.
+  Proof.
+    intros E. unfold AppendOutput_write_cleanup. cbv zeta.
+    wj_go dbf.
+    all: match goal with |- ?G => idtac G end.
+  Qed.
+
+  (** goal 4 (inside the section): the whole kernel, for an explicit T *)
+  Variable d : IgDefinition.
+  Hypothesis Hd : IgDefinition_output_variable d = ov.
+  Hypothesis Hdims : forall i td, In (i, td) (IgDefinition_indexes d) ->
+    negb (CB.mem (GlueGen.TensorDimension_name td) T) || CB.mem (i ++ "_dim") T = true.
+  Hypothesis Hunpack : forall n fmt, In (n, fmt) (IgDefinition_formats d) ->
+    CB.mem n T = false \/
+    ((forall i m, In (i, m) (py_enumerate (conv_format_modes fmt)) ->
+        CB.mem (n ++ String "_"%char (show_Z i ++ "_pos")) T = true /\ CB.mem (n ++ String "_"%char (show_Z i ++ "_crd")) T = true)
+     /\ CB.mem (n ++ "_vals") T = true).
+  Hypothesis Hparams : forall n, In n (tl (map fst (IgDefinition_formats d))) -> In n T.
+
+  Lemma Forall_In_self {A} (l : list A) : Forall (fun x => In x l) l.
+  Proof. apply Forall_forall. auto. Qed.
+
+  Theorem gen_safe_T cap fuel g k : goodi g ->
+    wp (generate_ir_fuel cap fuel d g k) (fun f => match f with FunctionDefinition _ ps _ body =>
+         (forall x, In x (CB.param_names (tl ps)) -> In x T) /\ CI.safe_stmt T body = true end).
+  Proof.
+    intros Hg. unfold generate_ir_fuel. cbv zeta.
+    apply wp_bind_goodi.
+    { apply (wp_ofold_all (fun x => In x (IgDefinition_indexes d))); [apply Forall_In_self| |reflexivity].
+      intros acc [i td] Hin Ha. cbv beta iota. apply wp_some. apply gi_append_stmt; [exact Ha|].
+      unfold okI. cbn. exact (Hdims i td Hin). }
+    intros s1 Hs1. cbv beta.
+    apply wp_bind_goodi.
+    { apply (wp_ofold_all (fun x => In x (IgDefinition_formats d))); [apply Forall_In_self| |reflexivity].
+      intros acc [n fmt] Hin Ha. cbv beta iota.
+      pose proof (Hunpack n fmt Hin) as Hu.
+      apply wp_bind_goodi.
+      - apply (wp_ofold_all (fun x => In x (py_enumerate (conv_format_modes fmt)))); [apply Forall_In_self| |exact Ha].
+        intros acc2 [i m] Him Ha2. cbv beta iota.
+        destruct (Mode_eqb m Mode_dense); [apply wp_bind_some; apply wp_some; exact Ha2|].
+        destruct (Mode_eqb m Mode_compressed); [|repeat (apply wp_bind_some); apply wp_some; exact Ha2].
+        repeat (apply wp_bind_some). apply wp_some.
+        apply gi_append_stmt; [apply gi_append_stmt; [exact Ha2|]|]; unfold okI; cbn;
+          (destruct Hu as [Hu | [Hu _]]; [rewrite Hu; reflexivity | rewrite (proj1 (Hu i m Him)) || rewrite (proj2 (Hu i m Him)); apply orb_true_r]).
+      - intros s2 Hs2. apply wp_some. apply gi_append_stmt; [exact Hs2|]. unfold okI. cbn.
+        destruct Hu as [Hu | [_ Hu]]; [rewrite Hu; reflexivity | rewrite Hu; apply orb_true_r]. }
+    intros s2 Hs2. cbv beta.
+    rewrite Hd, Hov. apply wp_bind_some.
+    apply wp_bind_goodi; [apply wi_declarations; reflexivity|]. intros dcl Hdcl.
+    apply wp_bind_goodi; [apply family_safe; [exact Hg | reflexivity]|]. intros body Hbody.
+    apply wp_bind_goodi; [apply wi_cleanup; reflexivity|]. intros cl Hcl.
+    apply wp_some. split.
+    - intros x Hx. apply Hparams.
+      revert Hx. generalize (map fst (IgDefinition_formats d)). intros l. destruct l as [|a l]; cbn; [auto|].
+      induction l as [|b l IH]; cbn; [auto|]. intros [<-|H]; [now left | right; auto].
+    - apply (gi_finalize _). gi_solve2.
+  Qed.
 End SAFE.
 
 (** the closure-free route, stated on whole kernels: safe for an explicit T + the inputs in T  =>  the conclusion of CERT_input *)
@@ -1709,3 +2034,105 @@ Definition gen_input_safe_semantic (T : list string) (f : function_definition) :
   | FunctionDefinition name ps rt body =>
       (forall x, In x (CB.param_names (tl ps)) -> In x T) /\ CI.safe_stmt T body = true
   end.
+
+Local Open Scope string_scope.
+(** * 13. names_ok as a boolean, and the final theorem *)
+Lemma prefix_app pre r : String.prefix pre (pre ++ r) = true.
+Proof. induction pre as [|a pre IH]; cbn; [destruct r; reflexivity|]. destruct (Ascii.ascii_dec a a); [exact IH | congruence]. Qed.
+
+Lemma no_prefix pre T : forallb (fun x => negb (String.prefix pre x)) T = true -> forall r, CB.mem (pre ++ r) T = false.
+Proof.
+  intros H r. destruct (CB.mem (pre ++ r) T) eqn:E; [|reflexivity].
+  apply CB.mem_In in E. rewrite forallb_forall in H. specialize (H _ E). rewrite prefix_app in H. discriminate.
+Qed.
+
+Definition names_ok_T (T : list string) (d : IgDefinition) : bool :=
+  match conv_tensor (IgDefinition_output_variable d) with
+  | None => false
+  | Some outT =>
+      let out := Tensor_name outT in
+      negb (CB.mem out T)
+      && forallb (fun x => negb (String.prefix (out ++ "_") x)) T
+      && forallb (fun x => negb (String.prefix "p_" x)) T
+      && forallb (fun x => negb (String.prefix "i_" x)) T
+      && forallb (fun x => negb (String.prefix "bucket_" x)) T
+      && forallb (fun x => negb (String.prefix "written_" x)) T
+      && forallb (fun i => negb (CB.mem i T)) (Tensor_indexes outT)
+      && forallb (fun '(i, td) => negb (CB.mem (GlueGen.TensorDimension_name td) T) || CB.mem (i ++ "_dim") T) (IgDefinition_indexes d)
+      && forallb (fun '(n, fmt) =>
+                    negb (CB.mem n T)
+                    || (forallb (fun '(i, m) => CB.mem (n ++ String "_"%char (show_Z i ++ "_pos")) T
+                                              && CB.mem (n ++ String "_"%char (show_Z i ++ "_crd")) T)
+                                (py_enumerate (conv_format_modes fmt))
+                        && CB.mem (n ++ "_vals") T))
+                 (IgDefinition_formats d)
+      && forallb (fun n => CB.mem n T) (tl (map fst (IgDefinition_formats d)))
+  end.
+
+Lemma str_assoc a b c : ((a ++ b) ++ c)%string = (a ++ (b ++ c))%string.
+Proof. induction a as [|x a IH]; cbn; [reflexivity | rewrite IH; reflexivity]. Qed.
+
+Theorem gen_safe_names_ok T cap d g k f :
+  names_ok_T T d = true -> graph_outputs_of d g = true ->
+  generate_ir cap d g k = Some f -> gen_input_safe_semantic T f.
+Proof.
+  unfold names_ok_T, graph_outputs_of. destruct (conv_tensor (IgDefinition_output_variable d)) as [outT|] eqn:Hov; [|discriminate].
+  intros N Hg E.
+  apply andb_true_iff in N as [N N10]. apply andb_true_iff in N as [N N9]. apply andb_true_iff in N as [N N8].
+  apply andb_true_iff in N as [N N7]. apply andb_true_iff in N as [N N6]. apply andb_true_iff in N as [N N5].
+  apply andb_true_iff in N as [N N4]. apply andb_true_iff in N as [N N3]. apply andb_true_iff in N as [N1 N2].
+  unfold generate_ir in E.
+  refine (gen_safe_T T outT (IgDefinition_output_variable d) Hov _ _ _ _ _ _ _ d eq_refl _ _ _ cap _ g _ Hg f E).
+  - apply negb_true_iff. exact N1.
+  - intros r. change (Tensor_name outT ++ String "_"%char r) with (Tensor_name outT ++ ("_" ++ r)). rewrite <- str_assoc. apply no_prefix. exact N2.
+  - intros r. apply (no_prefix "p_"). exact N3.
+  - intros r. apply (no_prefix "i_"). exact N4.
+  - intros r. apply (no_prefix "bucket_"). exact N5.
+  - intros r. apply (no_prefix "written_"). exact N6.
+  - intros i Hi. rewrite forallb_forall in N7. apply negb_true_iff. exact (N7 i Hi).
+  - intros i td Hin. rewrite forallb_forall in N8. exact (N8 (i, td) Hin).
+  - intros n fmt Hin. rewrite forallb_forall in N9. specialize (N9 (n, fmt) Hin). cbn beta iota in N9.
+    apply orb_true_iff in N9 as [A|A]; [left; apply negb_true_iff; exact A|right].
+    apply andb_true_iff in A as [A B]. split; [|exact B].
+    intros i m Him. rewrite forallb_forall in A. specialize (A (i, m) Him). cbn beta iota in A. apply andb_true_iff in A. exact A.
+  - intros n Hn. rewrite forallb_forall in N10. apply CB.mem_In. exact (N10 n Hn).
+Qed.
+
+(** the explicit taint set: the inputs, the arrays unpacked from them, the dimensions sized by them *)
+Definition T1 (d : IgDefinition) : list string :=
+  let out := match conv_tensor (IgDefinition_output_variable d) with Some o => Tensor_name o | None => "" end in
+  let ins := filter (fun nf : string * IterGraphs.Format => negb (String.eqb (fst nf) out)) (IgDefinition_formats d) in
+  (map fst ins
+  ++ flat_map (fun nf : string * IterGraphs.Format => let n := fst nf in
+                 (flat_map (fun im : Z * Mode => [(n ++ String "_"%char (show_Z (fst im) ++ "_pos"))%string; (n ++ String "_"%char (show_Z (fst im) ++ "_crd"))%string])
+                          (py_enumerate (conv_format_modes (snd nf))) ++ [(n ++ "_vals")%string])%list) ins
+  ++ flat_map (fun itd : string * GlueGen.TensorDimension =>
+                 if CB.mem (GlueGen.TensorDimension_name (snd itd)) (map fst ins) then [(fst itd ++ "_dim")%string] else []) (IgDefinition_indexes d))%list.
+
+Definition names_ok (d : IgDefinition) (g : ig_graph) : bool := names_ok_T (T1 d) d.
+
+Example names_ok_ordinary : names_ok ex_d ex_g = true.
+Proof. vm_compute. reflexivity. Qed.
+
+(* K-C08-3: pos() = bucket(j) * c(j), bucket:s -- the bucket name bucket_0_pos IS the pos array of the input `bucket` *)
+Definition ex_d_k3 := MkDefinition (IdTensor "0_pos" "pos" [] [])
+  [("pos", MkFormat [] []); ("bucket", MkFormat [ExhaustAst.Mode_compressed] [0%Z]); ("c", MkFormat [ExhaustAst.Mode_dense] [0%Z])]
+  [("j", MkTensorDimension "bucket" 0%Z)].
+Example names_ok_k_c08_3 : forall g, names_ok ex_d_k3 g = false.
+Proof. intros g. vm_compute. reflexivity. Qed.
+Example names_ok_distinct_names_witness : names_ok ex_d3 ex_g3 = false.
+Proof. vm_compute. reflexivity. Qed.
+
+(** (b) THE SEMANTIC CONCLUSION of CERT_input for ALL graphs and ALL kinds, under the boolean hypotheses *)
+Theorem gen_inputs_untouched cap d g k f :
+  names_ok d g = true -> graph_outputs_of d g = true -> generate_ir cap d g k = Some f ->
+  forall fuel args st, CI.out_clean st args ->
+    match IRSem.call fuel f args st with
+    | IRSem.Fail x => x <> Num.EWriteInput
+    | IRSem.Returned st' _ _ => CI.out_clean st' args
+    | _ => True
+    end.
+Proof.
+  intros N G E. pose proof (gen_safe_names_ok (T1 d) cap d g k f N G E) as S.
+  destruct f as [name ps rt body]. destruct S as [P S]. apply (GenGenIR_sound.input_safe_sound_T (T1 d)); assumption.
+Qed.
